@@ -29,16 +29,12 @@ from collections import Counter
 from pathlib import Path
 
 from vf import common
-from vf.common import HOME, REPO, digest, jdump
+from vf.common import HOME, REPO, CaseTimeout, digest, jdump
 
 NPROC = int(os.environ.get("VERIF_NPROC", "16"))
 CASE_TIMEOUT = int(os.environ.get("VERIF_CASE_TIMEOUT", "60"))
 MAX_SAMPLES = 8
 SAMPLE_BYTES = 2000
-
-
-class CaseTimeout(Exception):
-    pass
 
 
 def _alarm(signum, frame):
@@ -92,7 +88,7 @@ class Collector:
         if old is not None:
             self.suppressed[bucket] += 1
 
-    def eval(self, case, nontrivial: bool, labels=(), distinct_key=None, enumerated=False):
+    def eval(self, case, nontrivial: bool, labels=(), distinct_key=None, enumerated=False, timeout=None):
         """Evaluate one case with the module's run_case under the watchdog."""
         self.evals += 1
         for lb in labels:
@@ -103,7 +99,7 @@ class Collector:
             else:
                 self.nontrivial.add(digest(distinct_key if distinct_key is not None else case))
             self.sample(case)
-        res = guarded(self.mod().run_case, case)
+        res = guarded(self.mod().run_case, case, timeout)
         if res is not None:
             self.fail(case, res[0], res[1])
         return res
@@ -175,7 +171,7 @@ def _write_evidence(mod, tier, seed, cov, wall, violations):
     (d / f"{mod.ID}.json").write_text(json.dumps(ev, indent=1, ensure_ascii=False, default=str) + "\n")
 
 
-def _shrink(mod, failure, budget):
+def _shrink(mod, failure, budget, seconds=20.0):
     """Greedy descent over module-provided candidates; bounded by a count of re-evaluations."""
     gen = getattr(mod, "shrink_candidates", None)
     if gen is None:
@@ -183,10 +179,13 @@ def _shrink(mod, failure, budget):
     case, bucket = failure["case"], failure["bucket"]
     used = 0
     improved = True
-    while improved and used < budget:
+    t_end = time.time() + seconds  # shrinking only improves the replay; it is bounded in evaluations AND wall time
+    if bucket == "hang":
+        return failure, 0
+    while improved and used < budget and time.time() < t_end:
         improved = False
         for cand in gen(case):
-            if used >= budget:
+            if used >= budget or time.time() >= t_end:
                 break
             used += 1
             try:
@@ -363,7 +362,7 @@ def main(argv):
             known_hits[kid] += 1 + merged.suppressed.get(bucket, 0)
             continue
         try:
-            f2, used = _shrink(mod, f, shrink_budget)
+            f2, used = _shrink(mod, f, shrink_budget, 15.0 if tier == "quick" else 120.0)
         except Exception:
             f2 = f
         violations.append((f2, "search"))
